@@ -42,6 +42,8 @@ struct Cmd {
     /// pre_exec closures: None = succeeds, Some(e) = fails with errno e, Some(-1) = fails with an
     /// error that carries no errno (Error::Uncategorized)
     closures: Vec<Option<i32>>,
+    /// the same Command is spawned twice (fault-free first time); the second spawn is judged
+    twice: bool,
     exit: i32,
 }
 
@@ -57,7 +59,7 @@ fn dumpenv_path() -> String {
 }
 
 fn base_cmds() -> Vec<Cmd> {
-    let c = |io: [Io; 3]| Cmd { missing_bin: false, args: vec![], env: None, cwd: false, pgroup: false, uid: None, gid: None, io, closures: vec![], exit: 42 };
+    let c = |io: [Io; 3]| Cmd { missing_bin: false, args: vec![], env: None, cwd: false, pgroup: false, uid: None, gid: None, io, closures: vec![], twice: false, exit: 42 };
     let mut v = vec![
         c([Io::Default; 3]),
         c([Io::Null, Io::Null, Io::Null]),
@@ -85,6 +87,10 @@ fn base_cmds() -> Vec<Cmd> {
     d2.closures = vec![Some(-1)];
     v.push(d2);
     v.push(c([Io::Null, Io::RawShared, Io::RawShared]));
+    let mut t2 = c([Io::Null, Io::Pipe, Io::Null]);
+    t2.twice = true;
+    t2.args = vec![b"again".to_vec()];
+    v.push(t2);
     v.push(c([Io::Null, Io::Null, Io::CallerStdout]));
     v.push(c([Io::Null, Io::Pipe, Io::CallerStdout]));
     let mut e = c([Io::Pipe, Io::Null, Io::Pipe]);
@@ -162,6 +168,7 @@ fn gen_cmd(dec: &mut Dec) -> Cmd {
         gid,
         io: [pick_io(dec), pick_io(dec), pick_io(dec)],
         closures,
+        twice: false,
         exit,
     }
 }
@@ -352,7 +359,19 @@ fn run_cmd(cmd: &Cmd, plan: Option<Plan>, dec: Dec, record: bool, slot: u64) -> 
                 });
             }
         }
-        let r = c.spawn();
+        let mut r = c.spawn();
+        if cmd.twice && plan.is_none() {
+            // a Command is a reusable description: spawning it again gives the same child again
+            if let Ok(mut first) = r {
+                let _ = first.wait();
+                drop(first);
+                use std::io::Seek;
+                let mut f = &dump_file;
+                let _ = f.set_len(0);
+                let _ = f.rewind();
+                r = c.spawn();
+            }
+        }
         guard_child(k.harness_pid);
         // faults are for spawn's own calls only, not for the harness's wait below
         k.plan.set(None);
@@ -779,7 +798,7 @@ impl Check for C13 {
         12
     }
     fn rule(&self) -> String {
-        "enumeration part (complete): 15 base commands (every stdio mode per stream, args incl. empty and non-UTF-8, provided environment with duplicates/empty values/'=' in values, cwd, pgroup, uid/gid current and 65534, succeeding and failing pre_exec closures incl. one failing without an errno, missing binary) x every system-call index of the recorded parent trace and of the child trace between fork and exec x every plausible errno. seeded part: generated commands (0..7 args incl. 5000-byte and invalid UTF-8, 0..6 env entries, all options) with no fault or one drawn single fault. Oracle: code placed right after spawn() compares pids (a forked copy that gets there reports through a shared page); Ok => the exec target's dump (argv, raw environment block, cwd, pgid, uid/gid, identity of descriptors 0-2) equals the configuration and wait() yields its exit status; a failing step => Err with that step's errno and no child left alive. non-trivial = a fault fired or a closure/exec failure was configured; distinct = hash of (command, trace, plan)".into()
+        "enumeration part (complete): 16 base commands (every stdio mode per stream, args incl. empty and non-UTF-8, provided environment with duplicates/empty values/'=' in values, cwd, pgroup, uid/gid current and 65534, succeeding and failing pre_exec closures incl. one failing without an errno, missing binary, one Command spawned twice) x every system-call index of the recorded parent trace and of the child trace between fork and exec x every plausible errno. seeded part: generated commands (0..7 args incl. 5000-byte and invalid UTF-8, 0..6 env entries, all options) with no fault or one drawn single fault. Oracle: code placed right after spawn() compares pids (a forked copy that gets there reports through a shared page); Ok => the exec target's dump (argv, raw environment block, cwd, pgid, uid/gid, identity of descriptors 0-2) equals the configuration and wait() yields its exit status; a failing step => Err with that step's errno and no child left alive. non-trivial = a fault fired or a closure/exec failure was configured; distinct = hash of (command, trace, plan)".into()
     }
     fn assumptions(&self) -> Vec<String> {
         vec![
